@@ -524,7 +524,7 @@ def run(ctx):
                 "coordinates, data, mask and target, each run under PYTROLL_CHUNK_SIZE in {1,2,3,7,4096} (cost-capped for small chunk "
                 "sizes); non-trivial = at least one target pixel receives a source value AND more than one block is assembled or "
                 "a mask / extra dim / invalid pixel is present; distinct = distinct (case, chunk size, resampler, chunking)")
-    ncase = ctx.n(32, 400)
+    ncase = ctx.n(32, 300)
     sizes = [(30, 24), (60, 40), (120, 80), (400, 300)]
     cases, metas = [], {}
     for cid in range(ncase):
